@@ -11,9 +11,14 @@ package vrt
 
 import (
 	"fmt"
+	"math/rand"
 	"os"
+	"path/filepath"
+	"runtime"
+	"time"
 	"strconv"
 	"strings"
+	"sync"
 )
 
 var (
@@ -21,12 +26,23 @@ var (
 	pos  int
 	obs  []string
 	used int
+
+	popMu          sync.Mutex // SchedPoint may be reached from goroutines of the code under test
+	baseGoroutines int
 )
 
 // SetVector installs the replay vector for the next native run.
-func SetVector(v []uint64) { vec = v; pos = 0; obs = nil; used = 0 }
+func SetVector(v []uint64) {
+	vec = v
+	pos = 0
+	obs = nil
+	used = 0
+	baseGoroutines = runtime.NumGoroutine()
+}
 
 func pop() uint64 {
+	popMu.Lock()
+	defer popMu.Unlock()
 	used++
 	if pos < len(vec) {
 		v := vec[pos]
@@ -60,6 +76,42 @@ func Bytes(n int) []byte {
 	b := make([]byte, n)
 	for i := range b {
 		b[i] = uint8(pop())
+	}
+	return b
+}
+
+// SchedPoint marks a place (in harness-provided collaborators of the code under test) where the schedule may let the
+// other goroutines run first. The decision is an input: natively 1 means "sleep long enough for the others to block".
+func SchedPoint(tag string) {
+	d := pop()
+	if os.Getenv("VERIF_SCHED_RANDOM") != "" {
+		// race replay: the schedule found by the solver is approximated by random delays at the schedule points
+		d = uint64(rand.Intn(3) / 2)
+	}
+	if d != 0 {
+		time.Sleep(40 * time.Millisecond)
+	}
+}
+
+// AssertNoGoroutines: every goroutine started since Run began has ended (the engine lets them run until none can
+// continue; natively the goroutine count is polled for up to two seconds).
+func AssertNoGoroutines(label string) {
+	deadline := time.Now().Add(2 * time.Second)
+	for runtime.NumGoroutine() > baseGoroutines {
+		if time.Now().After(deadline) {
+			Assert(false, label)
+			return
+		}
+		time.Sleep(5 * time.Millisecond)
+	}
+	Assert(true, label)
+}
+
+// Corpus returns the bytes of a file of the repository, named relative to the harness package's directory.
+func Corpus(rel string) []byte {
+	b, err := os.ReadFile(filepath.Join(os.Getenv("VERIF_PKG_DIR"), rel))
+	if err != nil {
+		panic("vrt.Corpus: " + err.Error())
 	}
 	return b
 }
